@@ -128,6 +128,22 @@ def random_state(universe, rng):
             directed.append(('copy_like', dict(d=r, x=i)))
             directed.append(('separate_out', dict(x=r, y=i)))
         return dict(st=st, sv=sv, directed=directed)
+    if rng.random() < 0.2 and len(universe['names']) >= 2:
+        # directed: two multi-phase streams of ONE package with the SAME phase set, both holding material in several phases, and flow
+        # copied between them with a phase named explicitly (with and without removal)
+        same = [n for n in universe['names'] if universe['pkg'][n] == universe['pkg'][universe['names'][0]]]
+        if len(same) >= 2:
+            x, y = rng.sample(same, 2)
+            phs = sorted(rng.choice([['g', 'l'], ['g', 'l', 's'], ['L', 'l']]))
+            chems = [c for c in universe['pkgs'][universe['pkg'][x]] if c <= nc]
+            for n in (x, y):
+                st[n]['k'], st[n]['ph'] = 'm', phs
+                st[n]['fl'] = {p: [0 if (c not in chems or rng.random() < 0.2) else 4 * rng.randint(1, 6) for c in range(1, nc + 1)] for p in phs}
+            directed = []
+            for r, i in ((x, y), (y, x)):
+                ids = sorted(c for c in chems if rng.random() < 0.7) or chems[:1]
+                directed.append(('copy_flow_multi', dict(x=r, y=i, ids=ids, all=False, remove=rng.random() < 0.7, excl=False, as_str=False, ph=rng.choice(phs))))
+            return dict(st=st, sv=sv, directed=directed)
     return dict(st=st, sv=sv)
 
 
